@@ -135,4 +135,6 @@ def run(chk, F, tier):
                     if st[0] == "a" and st[2][0] == "agg" and st[2][2] == FEAT and st[2][3] == "Goto":
                         gated = True
     chk.check(gated, "R03b", "goto-gated", "`goto` is no longer gated on the Goto feature (it is an ordinary name in Lua 5.1)", nk.loc())
+    from rules import nesting
+    nesting.check_pairing(chk, F, "R03c", "C03")
     chk.explanation = "Evaluates the per-level feature sets and the keyword table from MIR and compares them with the reference tables encoded in the rule."
